@@ -6,6 +6,7 @@ CONSTANTS
  HashSession = TRUE
  HashId = TRUE
  DedupMode = "peer+id"
+ AllowRelay = FALSE
  MCCfgs <- Cfg3
  Bodies = {x, y}
  MaxFSig = 99
